@@ -67,14 +67,20 @@ class World:
         con.execute('INSERT INTO ta (id) VALUES (1)')
         con.execute('INSERT INTO ta (id) VALUES (2)')
         for b, row in sorted(rows.items()):
-            con.execute('INSERT INTO tb (id, u, a_id) VALUES (?, ?, ?)', (b, row['u'] or None, row['a'] or None))
+            if row.get('ex', True):
+                con.execute('INSERT INTO tb (id, u, a_id) VALUES (?, ?, ?)', (b, row['u'] or None, row['a'] or None))
         con.execute('COMMIT')
         con.close()
 
-    def external(self, b, u, a):
+    def external(self, b, u, a, how='Ext'):
         con = sqlite3.connect(self.path, isolation_level=None, timeout=2)
         con.execute('PRAGMA foreign_keys=ON')
-        con.execute('UPDATE tb SET u = ?, a_id = ? WHERE id = ?', (u or None, a or None, b))
+        if how == 'ExtDelete':
+            con.execute('DELETE FROM tb WHERE id = ?', (b,))
+        elif how == 'ExtInsert':
+            con.execute('INSERT INTO tb (id, u, a_id) VALUES (?, ?, ?)', (b, u or None, a or None))
+        else:
+            con.execute('UPDATE tb SET u = ?, a_id = ? WHERE id = ?', (u or None, a or None, b))
         con.close()
 
 
@@ -118,8 +124,8 @@ class Runner:
     def execute(self, ev):
         op, k, x, y = ev['op'], ev['k'], ev['x'], ev['y']
         w = self.w
-        if op == 'Ext':
-            w.external(k, x, y)
+        if op in ('Ext', 'ExtDelete', 'ExtInsert'):
+            w.external(k, x, y, op)
             return 'ok', set()
         if op == 'End':
             self.end(False)
@@ -180,7 +186,7 @@ def run_one(w, states):
     rows = fmap(states[0]['db'])
     w.reset(rows)
     r = Runner(w)
-    trace = [{'init': {str(b): [row['u'], row['a']] for b, row in rows.items()}}]
+    trace = [{'init': {str(b): [row['u'], row['a']] for b, row in rows.items() if row.get('ex', True)}}]
     cnt = {'steps': 0, 'refreshes': 0, 'loud': 0}
     r.begin()
     failed = False
@@ -269,7 +275,7 @@ def report(ctx, prop, res, stats, found):
 def replay(ctx, rep):
     w = World(ctx.scratch.path('db', 'refresh.sqlite'))
     tr = rep['refresh_trace']
-    rows = {int(b): {'u': ua[0], 'a': ua[1]} for b, ua in tr[0]['init'].items()}
+    rows = {int(b): {'ex': True, 'u': ua[0], 'a': ua[1]} for b, ua in tr[0]['init'].items()}
     w.reset(rows)
     r = Runner(w)
     r.begin()
